@@ -25,8 +25,12 @@ META = {
                   "waits, its frame is dispatched on the waiting stack as its own serve loop would). Multi-threaded callers are C13, timeouts C15. Depth is bounded by the interpreter stack in the real code (each remote hop costs frames): ping-pong depth ~120 works, "
                   "200 raises RecursionError remotely; the theorems speak of the protocol, the harness stays far below that bound.",
     "technique": "Coq proof by induction on call trees (frame lemma generalised over the stack context) + token invariant giving determinism of all executions; differential execution local / two real connections / extracted machine",
-    "gen": ["calls"],
-    "shapes": ["calls.*", "protocol.Connection.sync_request", "protocol.Connection.async_request", "protocol.Connection._handle_call", "protocol.Connection._handle_callattr"],
+    "gen": ["calls", "protocol", "serve", "vinegar"],
+    "gen_note": "the whole request/response path is pinned (text snapshots): what the typed call-path facts do not read is still tied",
+    "shapes": ["calls.*", "protocol.Connection.sync_request", "protocol.Connection.async_request", "protocol.Connection._handle_call", "protocol.Connection._handle_callattr",
+               "protocol.Connection._dispatch", "protocol.Connection._dispatch_request", "protocol.Connection._dispatch_response", "protocol.Connection._send_exc",
+               "protocol.Connection._seq_request_callback", "protocol.Connection.serve", "protocol.Connection._box_exc", "protocol.Connection._unbox_exc",
+               "protocol.Connection._async_request", "serve.AsyncResult.*", "vinegar.load"],
     "models": ["calltree"],
     "model_files": ["CallTree"],
     "assumptions": ["value/reference fidelity of arguments and results is carried by C03/C04 and the differential run, not by the call-tree model", "which classes the connection reproduces (the table xw) is C09's subject; here the default table is the harness's reading of it, validated by every generated tree"],
@@ -82,16 +86,20 @@ def has_self_kw(t):
     return any(k["kw"] == "_self" and k["side"] != t["side"] or has_self_kw(k) for k, _ in t["kids"])
 
 
-def gen_tree(r, depth, counter, side=None):
+def gen_tree(r, depth, counter, side=None, self_kw=None):
+    """`_self` (the keyword that collides with the proxy method's own first parameter: known finding F70) is generated only in a
+    dedicated share of the trees (8%): every other tree is compared in full"""
+    if self_kw is None:
+        self_kw = r.random() < 0.08
     counter[0] += 1
     nid = counter[0]
     side = r.choice("AB") if side is None else side
     kids = []
     if depth > 0:
         for _ in range(r.choice([0, 1, 1, 2, 2, 3, 4]) if depth > 1 else r.choice([0, 1, 2])):
-            kids.append((gen_tree(r, depth - r.choice([1, 1, 2]), counter), r.random() < 0.5))
+            kids.append((gen_tree(r, depth - r.choice([1, 1, 2]), counter, self_kw=self_kw), r.random() < 0.5))
     return {"side": side, "id": nid, "kids": kids, "raises": r.random() < 0.25,
-            "payload_seed": r.randrange(10**6), "kw": r.choice([False, True, True, "wide", "wide", "_self"] if r.random() < 0.9 else ["_self"])}
+            "payload_seed": r.randrange(10**6), "kw": r.choice([False, True, True, "wide", "wide"] + (["_self", "_self"] if self_kw else []))}
 
 
 # class numbers of the model (model/CallTree.v: an exception carries the ancestry of its class, most derived first)
@@ -234,6 +242,7 @@ def run_remote(root):
     except BaseException as e:
         out = ("fail", type(e).__name__, str(e)[:200])
     finally:
+        w.crashes = list(getattr(ca, "_harness_crashes", []))
         try:
             ca.close()
         except Exception:
@@ -243,12 +252,12 @@ def run_remote(root):
 
 
 # ------------------------------------------------------------------------------------------------ phase 2: exception classes, selective catching, result shapes
-class Abort(BaseException):
+class Halt(BaseException):
     """a user-defined exception outside the Exception hierarchy"""
 
 
 EXC = {"ValueError": ValueError, "KeyError": KeyError, "NodeError": NodeError,      # NodeError: a user-defined subclass of ValueError
-       "GeneratorExit": GeneratorExit, "Abort": Abort}                                # outside the Exception hierarchy
+       "GeneratorExit": GeneratorExit, "Abort": Halt}                                # outside the Exception hierarchy
 CATCH = {"all": Exception, "ValueError": ValueError, "KeyError": KeyError, "base": BaseException}
 CUSTOM_OK = {"import_custom_exceptions": True, "instantiate_custom_exceptions": True, "instantiate_oldstyle_exceptions": True}
 
@@ -342,6 +351,7 @@ def run_tree2(root, remote, cfg_extra):
             out = ("exc", isinstance(e, ValueError), isinstance(e, KeyError), isinstance(e, Exception), isinstance(e, GeneratorExit), tuple(e.args))
         return out, log, {k: list(v) for k, v in kept.items()}
     finally:
+        run_tree2.last_crashes = [repr(e)[:80] for _, e in getattr(ca, "_harness_crashes", [])] if ca is not None else []
         if ca is not None:
             try:
                 ca.close()
@@ -357,6 +367,9 @@ def exception_phase(ctx, n, model=None):
         lo = run_tree2(root, False, {})
         for mode, extra in (("default", {}), ("custom-allowed", CUSTOM_OK)):
             ro = run_tree2(root, True, extra)
+            if run_tree2.last_crashes:
+                ctx.violation("serving-ended-by-exception", {"tree2": root, "mode": mode}, observed=run_tree2.last_crashes[:3], expected="every request answered",
+                              what="an exception other than EOFError left one side's serving (its serving thread would have died with it)")
             cross = any(True for _ in _cross(root))
             ctx.case(("tree2", mode, repr(root)), nontrivial=cross, sample={"mode": mode, "local": repr(lo[0])[:80], "remote": repr(ro[0])[:80], "custom": has_custom(root)})
             ctx.count("exceptions:" + mode + (":custom-class" if has_custom(root) else ":builtin-only"))
@@ -414,12 +427,16 @@ def run(ctx):
             same = (lo[1] == ro[1] and tuple(lo[2]) == tuple(ro[2]))
         else:
             same = lo == ro
-        if not same and has_self_kw(root):
+        self_collision = has_self_kw(root) and ro[0] == "fail" and ro[1] == "TypeError" and "_self" in str(ro[2])
+        if not same and self_collision:
             ctx.violation("keyword-named-_self-collides-with-the-proxy-method", case, observed=ro, expected=lo,
                           what="a remote call with a keyword operand named `_self` fails with TypeError (the proxy's method wrapper takes its own first parameter by that name); locally it is an ordinary keyword")
         elif not same:
             ctx.violation("distributed-result-differs-from-local", case, observed=ro, expected=lo, what="the outermost result/exception of the two-peer run differs from the one-process run")
-        if has_self_kw(root):
+        crashed = [repr(e)[:80] for _, e in rw.crashes]
+        if crashed and not self_collision:
+            ctx.violation("serving-ended-by-exception", case, observed=crashed[:3], expected="every request answered", what="an exception other than EOFError left one side's serving (its serving thread would have died with it)")
+        if self_collision:
             pass          # everything downstream of the refused call differs too: reported once, above
         elif lw.log != rw.log:
             ctx.violation("invocation-log-differs", case, observed=rw.log[:40], expected=lw.log[:40], what="callees were not invoked exactly once each in the local order")
